@@ -18,6 +18,7 @@ use std::collections::{BTreeMap, HashMap};
 use std::rc::Rc;
 use std::sync::{Arc, Mutex};
 use vcheck::engine::{self, pick_idx, Ctx, Outcome, Property, Tier};
+use vcheck::opts::SerOpts;
 
 // ------------------------------------------------------------------------------------------
 // case description
@@ -90,6 +91,9 @@ struct Case {
     leaves: Vec<String>,
     /// the document root itself is a wrapper (`&a1` on the root node)
     root_wrapped: bool,
+    /// serializer options (None = defaults)
+    #[serde(default)]
+    opts: Option<SerOpts>,
 }
 
 // ------------------------------------------------------------------------------------------
@@ -442,12 +446,22 @@ struct CanonSt {
     c: Canon,
 }
 
+/// the `&name` / `*name` tokens of the text, custom names `nKx` (SerOpts::anchors) mapped to `aK`
 fn text_tokens(text: &str) -> Vec<String> {
     text.split_whitespace()
-        .filter(|t| {
-            (t.starts_with("&a") || t.starts_with("*a")) && t.len() > 2 && t[2..].bytes().all(|b| b.is_ascii_digit())
+        .filter_map(|t| {
+            let sigil = t.chars().next().filter(|c| *c == '&' || *c == '*')?;
+            let name = &t[1..];
+            let digits = if let Some(d) = name.strip_prefix('a') {
+                d
+            } else {
+                name.strip_prefix('n')?.strip_suffix('x')?
+            };
+            if digits.is_empty() || !digits.bytes().all(|b| b.is_ascii_digit()) {
+                return None;
+            }
+            Some(format!("{sigil}a{digits}"))
         })
-        .map(|t| t.to_string())
         .collect()
 }
 
@@ -495,6 +509,13 @@ fn compare(before: &Canon, after: &Canon, text: &str) -> Result<(), String> {
         ));
     }
     Ok(())
+}
+
+fn to_text<T: Serialize>(v: &T, o: &Option<SerOpts>) -> Result<String, serde_saphyr::ser::Error> {
+    match o {
+        None => serde_saphyr::to_string(v),
+        Some(o) => serde_saphyr::to_string_with_options(v, o.build()),
+    }
 }
 
 fn check_model(before: &Canon, m: &Model) -> Result<(), String> {
@@ -735,8 +756,8 @@ macro_rules! dag_family {
                 let before = canon(&root, &wrapped);
                 check_model(&before, m)?;
                 let ser = |r: &Option<Node>, w: &Option<$A<Node>>| match (r, w) {
-                    (_, Some(a)) => serde_saphyr::to_string(a),
-                    (Some(n), _) => serde_saphyr::to_string(n),
+                    (_, Some(a)) => to_text(a, &c.opts),
+                    (Some(n), _) => to_text(n, &c.opts),
                     _ => unreachable!(),
                 };
                 let text = ser(&root, &wrapped).map_err(|e| format!("serialization failed: {e}"))?;
@@ -828,8 +849,36 @@ impl<T> Slot<T> for Mutex<Option<T>> {
     }
 }
 
+/// serialise in place
+macro_rules! ser_direct {
+    ($f:ident, $root:ident, $wrapped:ident, $opts:expr) => {
+        $f(&$root, &$wrapped, &$opts)
+    };
+}
+/// serialise on a helper thread with a time limit: `ArcRecursive` holds a mutex while its value is
+/// written, so a serializer that writes a node again instead of an alias would lock it twice and
+/// never return; that must become a verdict, not a hung worker
+macro_rules! ser_guarded {
+    ($f:ident, $root:ident, $wrapped:ident, $opts:expr) => {{
+        let (r, w, o) = ($root.clone(), $wrapped.clone(), $opts.clone());
+        let (tx, rx) = std::sync::mpsc::channel();
+        let spawned = std::thread::Builder::new().stack_size(64 << 20).spawn(move || {
+            let _ = tx.send($f(&r, &w, &o));
+        });
+        if spawned.is_err() {
+            return Err("cannot spawn the serialisation thread".into());
+        }
+        match rx.recv_timeout(std::time::Duration::from_secs(60)) {
+            Ok(x) => x,
+            Err(_) => {
+                return Err("serialisation of an ArcRecursive graph does not return within 60 s (a mutex locked twice?)".into())
+            }
+        }
+    }};
+}
+
 macro_rules! rec_family {
-    ($m:ident, $P:ident, $S:ident, $K:ident, $Cell:ident) => {
+    ($m:ident, $P:ident, $S:ident, $K:ident, $Cell:ident, $ser:ident) => {
         mod $m {
             use super::*;
             #[derive(Serialize, Deserialize, Clone)]
@@ -1069,16 +1118,18 @@ macro_rules! rec_family {
                 st.c
             }
 
+            fn ser_fn(r: &Option<Node>, w: &Option<$S<Node>>, o: &Option<SerOpts>) -> Result<String, String> {
+                match (r, w) {
+                    (_, Some(a)) => to_text(a, o).map_err(|e| e.to_string()),
+                    (Some(n), _) => to_text(n, o).map_err(|e| e.to_string()),
+                    _ => unreachable!(),
+                }
+            }
             pub fn run(c: &Case, m: &Model) -> Result<(), String> {
                 let (root, wrapped) = build(c);
                 let before = canon(&root, &wrapped);
                 check_model(&before, m)?;
-                let ser = |r: &Option<Node>, w: &Option<$S<Node>>| match (r, w) {
-                    (_, Some(a)) => serde_saphyr::to_string(a),
-                    (Some(n), _) => serde_saphyr::to_string(n),
-                    _ => unreachable!(),
-                };
-                let text = ser(&root, &wrapped).map_err(|e| format!("serialization failed: {e}"))?;
+                let text = $ser!(ser_fn, root, wrapped, c.opts).map_err(|e| format!("serialization failed: {e}"))?;
                 check_text(&text, m)?;
                 let rej = |e: serde_saphyr::Error| {
                     format!("emitted text is rejected: {} (emitted {:?})", e.without_snippet(), text)
@@ -1090,7 +1141,7 @@ macro_rules! rec_family {
                 };
                 let after = canon(&root2, &wrapped2);
                 compare(&before, &after, &text)?;
-                let text2 = ser(&root2, &wrapped2).map_err(|e| format!("serialization of the restored graph failed: {e}"))?;
+                let text2 = $ser!(ser_fn, root2, wrapped2, c.opts).map_err(|e| format!("serialization of the restored graph failed: {e}"))?;
                 if text2 != text {
                     return Err(format!("restored graph serialises differently: {:?} vs {:?}", text2, text));
                 }
@@ -1099,8 +1150,8 @@ macro_rules! rec_family {
         }
     };
 }
-rec_family!(rc_rec, Rc, RcRecursive, RcRecursion, RefCell);
-rec_family!(arc_rec, Arc, ArcRecursive, ArcRecursion, Mutex);
+rec_family!(rc_rec, Rc, RcRecursive, RcRecursion, RefCell, ser_direct);
+rec_family!(arc_rec, Arc, ArcRecursive, ArcRecursion, Mutex, ser_guarded);
 
 // ------------------------------------------------------------------------------------------
 // generators
@@ -1167,7 +1218,7 @@ fn normalise(mut c: Case) -> Case {
 }
 
 const POS3: [Pos; 3] = [Pos::Seq, Pos::Map, Pos::Field];
-const LEAF_PAYLOADS: [&str; 6] = ["leaf", "leaf", "other", "two words", "x: y", "42"];
+const LEAF_PAYLOADS: [&str; 8] = ["leaf", "leaf", "other", "two words", "x: y", "42", "two\nlines", ""];
 
 /// strong shape number `code` over `n` allocations: multiplicity (0,1,2) of every edge i -> j, i < j
 fn shape(n: usize, mut code: u64) -> Option<Vec<NodeD>> {
@@ -1231,6 +1282,9 @@ fn features(c: &Case, m: &Model) -> Vec<String> {
     if c.root_wrapped {
         f.push("root is a wrapper".into());
     }
+    if c.opts.is_some() {
+        f.push("non-default serializer options".into());
+    }
     if c.kind.is_rec() {
         for d in &c.nodes {
             for w in &d.weak {
@@ -1281,6 +1335,22 @@ fn nontrivial_m(m: &Model) -> bool {
     m.class_sizes.iter().any(|&s| s >= 2) || m.live_weak + m.dangling > 0 || m.cycle
 }
 
+/// serializer options inside this property's domain: indentation 2/3/4/8, quote_all, yaml_12,
+/// prefer_block_scalars, tagged_enums and custom anchor names vary; compact_list_indent,
+/// empty_as_braces = false and indent_step = 1 are left to C13 (they break documents without any
+/// anchors), and the folding thresholds stay at their defaults
+fn c14_opts(bits: u32) -> SerOpts {
+    let mut o = SerOpts::from_bits(bits);
+    if o.indent == 1 {
+        o.indent = 3;
+    }
+    o.compact = false;
+    o.braces = true;
+    o.wrap = 80;
+    o.min_fold = 32;
+    o
+}
+
 #[derive(Clone, Debug)]
 struct RawGraph {
     strong: Vec<(u16, u16, bool, u8, u32)>,
@@ -1288,6 +1358,7 @@ struct RawGraph {
     leaves: Vec<u8>,
     leaf_of: Vec<(u16, u16)>,
     root_wrapped: bool,
+    opts: Option<SerOpts>,
 }
 
 fn assemble(kind: Kind, max_alloc: usize, r: RawGraph) -> Case {
@@ -1348,7 +1419,7 @@ fn assemble(kind: Kind, max_alloc: usize, r: RawGraph) -> Case {
         };
         nodes[s].weak.push(WeakE { to, pos });
     }
-    normalise(Case { kind, nodes, leaves, root_wrapped: r.root_wrapped })
+    normalise(Case { kind, nodes, leaves, root_wrapped: r.root_wrapped, opts: r.opts })
 }
 
 fn random_graph(kind: Kind, p_share: f64, max_alloc: usize, max_strong: usize, max_weak: usize) -> impl Strategy<Value = Case> {
@@ -1361,12 +1432,16 @@ fn random_graph(kind: Kind, p_share: f64, max_alloc: usize, max_strong: usize, m
             (any::<u16>(), any::<u16>(), prop::bool::weighted(0.03), prop::bool::weighted(0.6), 0u8..20),
             0..=max_weak,
         ),
-        prop::collection::vec(0u8..6, 0..3),
+        prop::collection::vec(0u8..8, 0..3),
         prop::collection::vec((any::<u16>(), any::<u16>()), 0..6),
         prop::bool::weighted(0.15),
+        prop_oneof![
+            3 => Just(None),
+            2 => (0u32..(1 << 14)).prop_map(|b| Some(c14_opts(b))),
+        ],
     )
-        .prop_map(move |(strong, weak, leaves, leaf_of, root_wrapped)| {
-            assemble(kind, max_alloc, RawGraph { strong, weak, leaves, leaf_of, root_wrapped })
+        .prop_map(move |(strong, weak, leaves, leaf_of, root_wrapped, opts)| {
+            assemble(kind, max_alloc, RawGraph { strong, weak, leaves, leaf_of, root_wrapped, opts })
         })
 }
 
@@ -1451,6 +1526,18 @@ impl Property for C14 {
         if any {
             v.push("dangling_weak_null");
         }
+        let (block, quote_all, wrap) = match &c.opts {
+            None => (true, false, 80),
+            Some(o) => (o.block, o.quote_all, o.wrap),
+        };
+        if block
+            && !quote_all
+            && c.nodes.iter().filter_map(|d| d.leaf).any(|l| {
+                c.leaves.get(l).map(|s| s.contains('\n') || s.chars().count() > wrap).unwrap_or(false)
+            })
+        {
+            v.push("anchored_block_scalar");
+        }
         if c.kind.is_rec() && simulate(c).map(|m| m.open_up > 0).unwrap_or(false) {
             v.push("option_link_to_open_node");
         }
@@ -1478,6 +1565,9 @@ impl Property for C14 {
                 t.nodes[i].leaf = None;
                 out.push(t);
             }
+        }
+        if c.opts.is_some() {
+            out.insert(0, Case { opts: None, ..c.clone() });
         }
         if c.root_wrapped {
             out.push(Case { root_wrapped: false, ..c.clone() });
@@ -1532,6 +1622,7 @@ impl Property for C14 {
             ],
             leaves: vec![],
             root_wrapped: false,
+            opts: None,
         };
         let m = simulate(&ok).map_err(|e| format!("model rejects a valid graph: {e}"))?;
         if m.tokens != ["&a1", "*a1", "*a1"] {
@@ -1583,7 +1674,7 @@ impl Property for C14 {
                     for (i, d) in ns.iter_mut().enumerate() {
                         d.id = ((i as u64 + code) % 2) as u32;
                     }
-                    let c = Case { kind, nodes: ns, leaves: vec![], root_wrapped: false };
+                    let c = Case { kind, nodes: ns, leaves: vec![], root_wrapped: false, opts: None };
                     let nt = note(&c);
                     ctx.case("shapes-dag", &c, nt);
                 }
@@ -1609,6 +1700,7 @@ impl Property for C14 {
                         nodes: ns,
                         leaves: vec!["leaf".into(), if code % 5 == 0 { "leaf".into() } else { "other".into() }],
                         root_wrapped: code % 11 == 3,
+                        opts: None,
                     });
                     let nt = note(&c);
                     ctx.case("shapes-dag-weak-leaves", &c, nt);
@@ -1630,7 +1722,7 @@ impl Property for C14 {
                             d.weak.push(WeakE { to: Some(i), pos: WPos::Seq });
                         }
                     }
-                    let c = normalise(Case { kind, nodes: ns, leaves: vec![], root_wrapped });
+                    let c = normalise(Case { kind, nodes: ns, leaves: vec![], root_wrapped, opts: None });
                     let nt = note(&c);
                     ctx.case("shapes-rec-links", &c, nt);
                 }
@@ -1667,7 +1759,7 @@ impl Property for C14 {
                             }
                         }
                         let before: usize = ns.iter().map(|d| d.weak.len()).sum();
-                        let c = normalise(Case { kind, nodes: ns, leaves: vec![], root_wrapped: false });
+                        let c = normalise(Case { kind, nodes: ns, leaves: vec![], root_wrapped: false, opts: None });
                         let after: usize = c.nodes.iter().map(|d| d.weak.len()).sum();
                         if after != before {
                             // subsets containing an edge outside the documented domain collapse onto a smaller subset
@@ -1706,7 +1798,7 @@ impl Property for C14 {
                                 (t, _) => (Some(t), false),
                             };
                             ns[i].weak.push(WeakE { to, pos });
-                            let c = Case { kind, nodes: ns, leaves: vec![], root_wrapped };
+                            let c = Case { kind, nodes: ns, leaves: vec![], root_wrapped, opts: None };
                             if simulate(&c).is_err() {
                                 ctx.class("single weak edge outside the domain (skipped)");
                                 continue;
